@@ -98,7 +98,16 @@ type OutResult struct {
 	Value interface{} // canonical
 	// AnyOf, when set, lists additional acceptable canonical values (representation freedom).
 	AnyOf []interface{}
+	// MayReject: the conversion preserves the value but an implementation may also refuse it
+	// (null + error); the properties never demand acceptance.
+	MayReject bool
 }
+
+// OptionalLeaf matches its value or null.
+type OptionalLeaf struct{ V interface{} }
+
+// Match accepts the value or null.
+func (o OptionalLeaf) Match(got interface{}) bool { return got == nil || LeafEqual(o.V, got) }
 
 func fail() OutResult { return OutResult{} }
 func ok(v interface{}, alts ...interface{}) OutResult {
@@ -229,12 +238,12 @@ func CoerceOut(s *model.Schema, typeName string, v interface{}, fl Flags) OutRes
 			}
 			tt = p
 		case int64:
-			if t > math.MaxInt64/int64(time.Second) || t < math.MinInt64/int64(time.Second) {
+			if t < -62135596800 || t > 253402300799 {
 				return fail()
 			}
 			tt = time.Unix(t, 0)
 		case float64:
-			if math.IsNaN(t) || math.IsInf(t, 0) || math.Abs(t) > 9e9 {
+			if math.IsNaN(t) || t < -62135596800 || t >= 253402300800 {
 				return fail()
 			}
 			secs := math.Floor(t)
@@ -288,7 +297,7 @@ func coerceOutString(v interface{}) OutResult {
 	}
 	rv := reflect.ValueOf(v)
 	if rv.Kind() == reflect.String {
-		return ok(rv.String())
+		return OutResult{OK: true, Value: rv.String(), MayReject: true} // named string types (e.g. Symbol)
 	}
 	return fail()
 }
